@@ -35,6 +35,8 @@ pub struct GenCfg {
     pub union_weight: u32,
     /// string literals in filters may contain characters that need escapes
     pub special_literals: bool,
+    /// string literals in filters may be spelled with unnecessary escapes
+    pub free_lit_escapes: bool,
 }
 
 impl GenCfg {
@@ -51,6 +53,7 @@ impl GenCfg {
             ext_funcs: false,
             union_weight: 15,
             special_literals: false,
+            free_lit_escapes: false,
         }
     }
 }
@@ -432,7 +435,7 @@ pub fn lit_of_value(src: &mut Src, v: &J, cfg: &GenCfg) -> Option<Lit> {
             if !cfg.special_literals && needs_escape_anyway(s) {
                 return None;
             }
-            Lit::Str(spell_str(src, s, cfg.free_escapes))
+            Lit::Str(spell_str(src, s, cfg.free_lit_escapes))
         }
         _ => return None,
     })
@@ -453,6 +456,7 @@ pub fn alt_num_spelling(src: &mut Src, f: f64) -> NumLit {
             2 => format!("{}E+0", i),
             3 if i % 10 == 0 && i != 0 => format!("{}e1", i / 10),
             3 => format!("{}.00", i),
+            _ if i == 0 => "0.0e-1".to_string(),
             _ => format!("{}0e-1", i),
         };
         NumLit {
@@ -587,7 +591,7 @@ pub fn gen_regex_test<'a>(src: &mut Src, root: &'a J, cur: Option<&Node<'a>>, cf
     let subj = Arg::Q(gen_sing(src, root, cur, cfg).to_query());
     Func {
         name: name.into(),
-        args: vec![subj, Arg::Lit(Lit::Str(spell_str(src, &pat, cfg.free_escapes)))],
+        args: vec![subj, Arg::Lit(Lit::Str(spell_str(src, &pat, cfg.free_lit_escapes)))],
     }
 }
 
